@@ -54,6 +54,44 @@ def gen_codec_struct(out):
     manual = re.findall(r'impl\s*<[^>]*>\s*(?:codec::)?(Encode|Decode|MaxEncodedLen)\s+for\s+\$?Fixed', s)
     out.append(f'def manualCodecImpls : List String := {lean_str_list(manual)}')
 
+def gen_transcendental(out):
+    t = read('transcendental.rs')
+    c = read('consts.rs')
+    def const_bits(name):
+        m = need(re.search(r'pub const %s: (U\d+F\d+) = U\d+F\d+::from_bits\((0x[0-9A-Fa-f_]+)\);' % name, c), f'consts::{name}')
+        return m.group(1), int(m.group(2).replace('_', ''), 16)
+    out.append('/-! ### `transcendental.rs`: constants (derived from `consts.rs` by shifts), CORDIC table and gain, loop bounds -/')
+    m = need(re.search(r'type ConstType = (\w+);', t), 'type ConstType')
+    out.append(f'def constType : String := "{m.group(1)}"')
+    for nm, lit in (('ZERO', 0), ('ONE', 1), ('TWO', 2), ('THREE', 3)):
+        need(re.search(r'pub const %s: I9F23 = I9F23::from_bits\(%di32 << 23\);' % (nm, lit), t), f'transcendental::{nm}')
+    derived = {}
+    for nm in ('TWO_PI', 'PI', 'FRAC_PI_2', 'FRAC_PI_4', 'LOG2_E', 'E'):
+        m = need(re.search(r'pub const %s: I9F23 = I9F23::from_bits\(\(consts::(\w+)\.to_bits\(\) >> (\d+)\) as i32\);' % nm, t), f'transcendental::{nm}')
+        ty, bits = const_bits(m.group(1))
+        derived[nm] = (m.group(1), ty, bits, int(m.group(2)))
+        v = bits >> int(m.group(2))
+        need(v < 2 ** 31, f'{nm} fits i32')
+        camel = {'TWO_PI': 'twoPi', 'PI': 'pi', 'FRAC_PI_2': 'fracPi2', 'FRAC_PI_4': 'fracPi4', 'LOG2_E': 'log2e', 'E': 'e'}[nm]
+        out.append(f'/-- `{nm}`: `consts::{m.group(1)}` ({ty}, bits 0x{bits:032X}) `>> {m.group(2)}` as I9F23 bits -/')
+        out.append(f'def {camel}Src : Nat := 0x{bits:032X}')
+        out.append(f'def {camel}Shift : Nat := {m.group(2)}')
+        out.append(f'def {camel}Bits : Int := {v}')
+    m = need(re.search(r'const ARCTAN_ANGLES: \[U0F128; (\d+)\] = \[(.*?)\];', t, re.S), 'ARCTAN_ANGLES')
+    entries = re.findall(r'U0F128::from_bits\((0x[0-9A-Fa-f]+)\)', m.group(2))
+    need(len(entries) == int(m.group(1)), 'ARCTAN_ANGLES length')
+    out.append(f'/-- `ARCTAN_ANGLES` (U0F128 bits) -/')
+    out.append('def arctanAngles : List Nat := [' + ', '.join(entries) + ']')
+    m = need(re.search(r'if i >= (\d+) \{\s*break;', t), 'cordic step bound')
+    out.append(f'def cordicSteps : Nat := {m.group(1)}')
+    m = need(re.search(r'let x = T::lossy_from\(U0F128::from_bits\((0x[0-9A-Fa-f]+)\)\);', t), 'cordic gain literal')
+    out.append(f'def cordicGain : Nat := {m.group(1)}')
+    # loop headers (trip-count expressions) in source order
+    loops = re.findall(r'^\s*(for [^{]+|while [^{]+)\{', t[:t.index('#[cfg(test)]')], re.M)
+    loops = [' '.join(l.split()) for l in loops]
+    out.append('/-- every loop header of the module, in source order -/')
+    out.append('def loopHeaders : List String := ' + lean_str_list(loops))
+
 def main():
     out = ['/- GENERATED by tools/gen_from_source.py from /repo/src — do not edit; rewritten on every check run. -/',
            'namespace Sfx', 'namespace Generated', '']
